@@ -1,22 +1,25 @@
 #!/bin/bash
-# tools/seeded_run.sh [tier] [id...] — the official procedure for a seeded change: apply patch.diff to /repo,
-# run the owning check(s) (from meta.json "property", plus any extra listed in meta "also"), undo straight afterwards.
-# Evidence/replays of these runs go to a scratch directory (VERIF_OUT), never to /verif/evidence.
+# tools/seeded_run.sh [id...] — the official procedure for a seeded change: apply patch.diff to /repo, run the
+# check(s) listed in its meta.json (run_checks), undo straight afterwards. Evidence/replays of these runs go to a
+# scratch directory (VERIF_OUT), never to /verif/evidence. Prints one line per (change, check).
 cd "$(dirname "$0")/.."
-TIER="${1:-quick}"; shift
 IDS="${@:-$(ls -d seeded/*/ | xargs -n1 basename)}"
 OUT=$(mktemp -d /tmp/seeded_run.XXXX)
 if [ -n "$(git -C /repo status --porcelain)" ]; then echo "/repo is not clean; refusing"; exit 2; fi
 for id in $IDS; do
-  prop=$(python3 -c "import json;print(json.load(open('seeded/$id/meta.json'))['property'])")
+  [ -f seeded/$id/patch.diff ] || continue
+  runs=$(python3 -c "import json;print(' '.join(r['check']+':'+r['tier'] for r in json.load(open('seeded/$id/meta.json'))['run_checks']))")
   if ! git -C /repo apply "$(pwd)/seeded/$id/patch.diff"; then echo "NOAPPLY $id"; continue; fi
-  t0=$(date +%s)
-  res=$(VERIF_OUT="$OUT" ./check $prop $TIER 2>&1); rc=$?
+  for r in $runs; do
+    chk=${r%%:*}; tier=${r##*:}
+    t0=$(date +%s)
+    res=$(VERIF_OUT="$OUT" ./check $chk $tier 2>&1); rc=$?
+    t1=$(date +%s)
+    nv=$(echo "$res" | grep -c '^VIOLATION')
+    if [ $rc -eq 1 ] && [ $nv -gt 0 ]; then st=CAUGHT; else st=MISSED; fi
+    echo "$st $id by $chk $tier rc=$rc violations=$nv $((t1-t0))s :: $(echo "$res" | grep -m1 '^  detail:' | cut -c1-180)"
+  done
   git -C /repo checkout -- . ; git -C /repo clean -fdq -e data 2>/dev/null
-  t1=$(date +%s)
-  nv=$(echo "$res" | grep -c '^VIOLATION')
-  if [ $rc -eq 1 ] && [ $nv -gt 0 ]; then st=CAUGHT; else st=MISSED; fi
-  echo "$st $id by $prop $TIER rc=$rc violations=$nv $((t1-t0))s :: $(echo "$res" | grep -m1 '^  detail:' | cut -c1-200)"
 done
 rm -rf "$OUT"
 git -C /repo status --porcelain
